@@ -53,6 +53,32 @@ def opGeom (args : List String) : String :=
       ⟨k, if i < nr then .rotate else .translate, ⟨0, 0, 0⟩, some i⟩
     let o := orderTransforms (ts.take nr) (ts.drop nr)
     " ".intercalate (o.map fun t => toString (t.tag.getD 0))
+  | "pipeline" :: nr :: nt :: ns :: np :: rest =>
+    -- nr rotations (key x y z tag|n), nt translations (same), ns scales (factor tag|n), np points (tag x y z)
+    let nr := parseN nr; let nt := parseN nt; let ns := parseN ns; let np := parseN np
+    let optN (s : String) : Option Nat := if s == "n" then none else some (parseN s)
+    let rec chunks (k : Nat) (l : List String) (fuel : Nat) : List (List String) :=
+      match fuel with
+      | 0 => []
+      | fuel + 1 => if l.isEmpty then [] else l.take k :: chunks k (l.drop k) fuel
+    let tr (kind : TKind) (c : List String) : Transform Float :=
+      match c with
+      | [k, x, y, z, t] => ⟨parseF k, kind, parseV x y z, optN t⟩
+      | _ => ⟨0, kind, ⟨0, 0, 0⟩, none⟩
+    let rs := (chunks 5 (rest.take (5 * nr)) nr).map (tr .rotate)
+    let rest := rest.drop (5 * nr)
+    let ts := (chunks 5 (rest.take (5 * nt)) nt).map (tr .translate)
+    let rest := rest.drop (5 * nt)
+    let ss : List (Scale Float) := (chunks 2 (rest.take (2 * ns)) ns).map fun c =>
+      match c with
+      | [f, t] => ⟨parseF f, optN t⟩
+      | _ => ⟨1, none⟩
+    let rest := rest.drop (2 * ns)
+    let ps := (chunks 4 (rest.take (4 * np)) np).map fun c =>
+      match c with
+      | [t, x, y, z] => showV (pipeline (fun a => a == 0) rs ts ss (parseN t) (parseV x y z))
+      | _ => "bad"
+    " ".intercalate ps
   | _ => "bad-op"
 
 end Driver
